@@ -2179,3 +2179,26 @@ def e1_empty_box(ctx):
              or isinstance(st, ast.Return)]
     ctx.check(not early, "C19-E1", ctx.site(SAMP, fn, gnode), "sample_AABB: points are drawn or returned before the empty-box test",
               f"`{au.src(early[0])[:100] if early else ''}`", note="empty-box test precedes every draw and mode branch")
+
+
+
+# ----------------------------------------------------------------------- generic families (msa/rules/generic.py)
+_run_specific = run
+
+
+def run(ctx):
+    _run_specific(ctx)
+    from ..rules import generic
+    generic.apply(ctx, "C19", stale_modules=('sampling',))
+    generic.export_keeps_element_axis(ctx, "C19-X0", "sample_surface / sample_polyline take the exported areas / lengths as the weights of "
+                                      "numpy's choice and fail on a mesh with a single face / edge")
+
+
+def _generic_rule_texts():
+    from ..rules import generic
+    return generic.rule_texts("C19", stale=True)
+
+
+RULES.update(_generic_rule_texts())
+RULES["C19-X0"] = ("R-AXIS: the per-element measure exported with as_array() and used as sampling weights keeps one entry per element "
+                   "for every element count")
